@@ -262,9 +262,39 @@ func runHostile(o *opts) {
 			rmrf(p.Base)
 		}
 	}
+	// (d) stage files that `dud stage add` is asked to put into the index: what it accepts, the next
+	// command must be able to load
+	for _, sf := range []struct {
+		name   string
+		reject bool
+	}{
+		{"../neighbour/h.yaml", true}, {"sp.yaml ", true}, {" lead.yaml", true}, {"sub/../../neighbour/h.yaml", true},
+		{"in ner.yaml", false}, {"sub/back2.yaml", false}, {"..dots.yaml", false},
+	} {
+		p, skip := newProj()
+		must(os.MkdirAll(filepath.Join(p.Root, "sub"), 0o755))
+		must(os.WriteFile(filepath.Join(p.Root, "extra.txt"), []byte("extra"), 0o644))
+		must(os.WriteFile(filepath.Join(p.Root, sf.name), []byte("outputs:\n  extra.txt: {}\n"), 0o644))
+		p.StageFs = append(p.StageFs, sf.name)
+		sp := want(20, 13)
+		if sf.reject {
+			sp = append(sp, want(5)...)
+		} else {
+			sp = append(sp, want(11)...)
+		}
+		t := run(p, skip, Cmd{Kind: "stageadd", Targets: []string{sf.name}}, sp, "stage add of an unusual stage path", map[string]interface{}{"stage_path": sf.name})
+		// whatever stage add did, the index it left behind loads
+		run(p, skip, Cmd{Kind: "status"}, want(20, 13), "status after stage add of an unusual stage path", map[string]interface{}{"stage_path": sf.name, "stage_add_ok": t.OK})
+		if t.OK {
+			run(p, skip, Cmd{Kind: "commit"}, want(11, 20, 13), "commit after stage add of an unusual stage path", map[string]interface{}{"stage_path": sf.name})
+		}
+		s.count("stagepath")
+		distinct["sp"+sf.name] = true
+		rmrf(p.Base)
+	}
 	s.Cases = len(all)
 	s.Nontrivial = len(distinct)
-	s.Rule = "hostile index lines (../x, absolute, a/../../x, root-name/../x; accepted: a/../x inside, ..name) x {commit, checkout, status, run, graph}; hostile stage files ('..' at every position, absolute paths, a/../../b, ..foo, as output / input / working dir) through `dud stage add` (+ run/commit/checkout when accepted); hostile directory manifests (entry ../x, ../../x, /abs, a/b, '.', '..', empty, path != key, NUL) x {checkout, checkout --copy, commit, status, pull}; a sentinel tree around the project is hashed before/after; every case is non-trivial; distinct by (path, position / command)"
+	s.Rule = "unusual stage paths given to stage add (outside the project, surrounding blanks; accepted: inner blanks, a sub-directory, ..name) followed by status and commit; hostile index lines (../x, absolute, a/../../x, root-name/../x; accepted: a/../x inside, ..name) x {commit, checkout, status, run, graph}; hostile stage files ('..' at every position, absolute paths, a/../../b, ..foo, as output / input / working dir) through `dud stage add` (+ run/commit/checkout when accepted); hostile directory manifests (entry ../x, ../../x, /abs, a/b, '.', '..', empty, path != key, NUL) x {checkout, checkout --copy, commit, status, pull}; a sentinel tree around the project is hashed before/after; every case is non-trivial; distinct by (path, position / command)"
 	if len(all) > 0 {
 		s.Samples = append(s.Samples, all[0].Info, all[len(all)/2].Info)
 	}
